@@ -8,7 +8,7 @@ import sys
 import z3
 
 from .core import E, SymBool, SymInt, Unsupported, active, mkint, tobool
-from .data import BYTES_WS, STR_WS, SymBytes, SymSeq, SymStr, format_value, has_sym, lift, sym_format
+from .data import BYTES_WS, STR_WS, SymBytes, SymSeq, SymStr, digits_value, format_value, has_sym, lift, sym_format
 
 _MAX_STR_DIGITS = getattr(sys, "get_int_max_str_digits", lambda: 0)()
 
@@ -69,7 +69,7 @@ def sx_int(x=0, base=None):
         after_prefix = True
     if not cells:
         bad()
-    val = z3.IntVal(0)
+    digs = []
     ndig = 0
     prev_us = not after_prefix  # True = an underscore is not allowed here
     for c in cells:
@@ -80,23 +80,31 @@ def sx_int(x=0, base=None):
             continue
         prev_us = False
         ndec = min(base, 10)
-        if _dec(R(c, 48, 48 + ndec - 1)):
-            d = (c - 48) if isinstance(c, builtins.int) else z3.BV2Int(c) - 48
-        elif base > 10 and _dec(R(c, 97, 97 + base - 11)):
-            d = (c - 87) if isinstance(c, builtins.int) else z3.BV2Int(c) - 87
-        elif base > 10 and _dec(R(c, 65, 65 + base - 11)):
-            d = (c - 55) if isinstance(c, builtins.int) else z3.BV2Int(c) - 55
+        if isinstance(c, builtins.int):
+            ch_ = chr(c)
+            if not (ch_.isascii() and ch_.isalnum()) or builtins.int(ch_, 36) >= base:
+                bad()
+            d = builtins.int(ch_, 36)
         else:
-            bad()
+            # one decision per cell (is it a digit of this base?), the digit value is an ITE term
+            c8 = c if c.size() == 8 else z3.Extract(7, 0, c)
+            ok_ = R(c, 48, 48 + ndec - 1)
+            d = c8 - 48
+            if base > 10:
+                ok_ = z3.Or(ok_, R(c, 97, 97 + base - 11), R(c, 65, 65 + base - 11))
+                d = z3.If(z3.ULE(c8, 57), c8 - 48, z3.If(z3.ULE(c8, 90), c8 - 55, c8 - 87))
+            if not _dec(ok_):
+                bad()
         ndig += 1
-        val = val * base + d
+        digs.append(d)
     if prev_us:
         bad()
     if _MAX_STR_DIGITS and ndig > _MAX_STR_DIGITS and (base & (base - 1)) != 0:
         raise ValueError(
             "Exceeds the limit (%d digits) for integer string conversion: value has %d digits; "
             "use sys.set_int_max_str_digits() to increase the limit" % (_MAX_STR_DIGITS, ndig))
-    return mkint(val * sign)
+    val = digits_value(digs, base)
+    return val * sign
 
 
 # ----------------------------------------------------------------------------- str() & friends
@@ -332,6 +340,19 @@ def sx_fmt(v, conv, spec):
     return format_value(v, None if conv == -1 else chr(conv), spec)
 
 
+def sx_getslice(x, lo, hi, step):
+    """x[lo:hi:step]; symbolic bounds on a concrete sequence are clamped against its length
+    (bytes.__getitem__ would call SymInt.__index__ and enumerate every value)"""
+    if isinstance(lo, SymInt) or isinstance(hi, SymInt):
+        if isinstance(x, (builtins.bytes, builtins.str, list, tuple, bytearray)) and step is None:
+            n = builtins.len(x)
+            if isinstance(lo, SymInt):
+                lo = lo.clamp_index(n)
+            if isinstance(hi, SymInt):
+                hi = hi.clamp_index(n)
+    return x[lo:hi:step]
+
+
 _entered = set()
 
 
@@ -369,6 +390,6 @@ INJECT = {
     "__sx_max__": sx_max, "__sx_dict__": sx_dict, "__sx_ord__": sx_ord,
     "__sx_call__": sx_call, "__sx_in__": sx_in, "__sx_mod__": sx_mod, "__sx_fstr__": sx_fstr,
     "__sx_fmt__": sx_fmt, "__sx_enter__": sx_enter, "__sx_yield__": sx_yield,
-    "__sx_dictdisplay__": sx_dictdisplay,
+    "__sx_dictdisplay__": sx_dictdisplay, "__sx_getslice__": sx_getslice,
 }
 REWRITTEN_BUILTINS = ("int", "str", "repr", "bytes", "len", "hex", "isinstance", "min", "max", "dict", "ord")
